@@ -63,7 +63,7 @@ CLAIMS = {
             "Terminal::resize glue are decided from an arbitrary terminal state. One inductive step over an arbitrary valid set covers resize/edit histories of any length.",
             "Bounds: <= 5 stops per set, widths <= 73; Kani's std/allocator model; Buffer::resize replaced by its contract in the resize-glue harness.", "5/C18"),
     "C19": (STEP + "execute(Ris) from any state (alternate screen, stale parked height, any modes incl. cursor keys, custom tabs) equals Terminal::new field by field; "
-            "ESC c from any parser state returns Ris and leaves Parser::new().", NOTE + " RIS with unlimited scrollback is outside (Buffer::new reserves 1000 lines).", "5/C19"),
+            "ESC c from any parser state returns Ris and leaves Parser::new().", NOTE + " The configured limit is symbolic (any usize) in the quick tier; unlimited scrollback in the thorough tier.", "5/C19"),
     "C20": ("From every string state every payload character yields no function and stays in the string; ST / ESC \\ / BEL(OSC) end it in ground; unimplemented CSI finals, "
             "private markers, intermediates, ESC finals and unassigned C0/C1 dispatch to None - a None step never reaches the terminal.",
             "Composition with the terminal is by the three-line body of Vt::feed / feed_str (no execute without a function).", "5/C20"),
